@@ -299,14 +299,22 @@ func checkC13(c *Ctx) *core.Result {
 		if search == nil {
 			r.Fail("X5", core.QualName(vq), "terminator search", p.Pos(vq.Pos()), "the quoted-value lexer has no IndexByte terminator search (undecided)")
 		} else {
+			posWriters := mayWriteField(p, g.stName, posField)
 			for _, b := range vq.Blocks {
 				for _, ins := range b.Instrs {
-					st, ok := ins.(*ssa.Store)
-					if !ok {
-						continue
+					// a store to the cursor, or a call of a helper that may store to it
+					var st ssa.Instruction
+					switch x := ins.(type) {
+					case *ssa.Store:
+						if fr, ok := ssax.AsFieldAddr(x.Addr); ok && fr.Field == posField {
+							st = x
+						}
+					case *ssa.Call:
+						if cal := x.Call.StaticCallee(); cal != nil && p.InModule(cal) && posWriters[cal] {
+							st = x
+						}
 					}
-					fr, ok := ssax.AsFieldAddr(st.Addr)
-					if !ok || fr.Field != posField || !ssax.Reachable(b, search.Block()) || b == search.Block() && ssax.InstrIndex(st) > ssax.InstrIndex(search) {
+					if st == nil || !ssax.Reachable(b, search.Block()) || b == search.Block() && ssax.InstrIndex(st) > ssax.InstrIndex(search) {
 						continue
 					}
 					if b != search.Block() && !b.Dominates(search.Block()) && !ssax.Reachable(b, search.Block()) {
